@@ -57,6 +57,19 @@ def exn_term(e: BaseException, where=None) -> str:
             return f"(XMissingField {coq_str(str(e.field_name))} {coq_str(e.holder_class.__name__)})"
         if n == "ExtraKeysError":
             order = list(where.keys()) if isinstance(where, dict) else []
+            if not all(any(type(o) is type(k) and o == k for o in order) for k in e.extra_keys):
+                # raised by a class nested below a root that is not a dataclass (no InvalidFieldValue wraps it): the mapping it
+                # is about is the first one inside the input that holds all these keys
+                def holders(x):
+                    if isinstance(x, dict):
+                        yield x
+                        for v in x.values():
+                            yield from holders(v)
+                    elif isinstance(x, (list, tuple)):
+                        for v in x:
+                            yield from holders(v)
+                order = next((list(m.keys()) for m in holders(where)
+                              if all(any(type(o) is type(k) and o == k for o in m) for k in e.extra_keys)), order)
             ks = sorted(e.extra_keys, key=lambda k: next((i for i, o in enumerate(order) if type(o) is type(k) and o == k), len(order)))
             return f"(XExtraKeys [{'; '.join(coq_pv(k) for k in ks)}] {coq_str(e.target_type.__name__)})"
     return f"(XOther {coq_str(n)})"
